@@ -77,9 +77,24 @@ def generate(rng, tier: str, index: int) -> dict:
         else:
             when = {'t': round(rng.random() * 40.0, 3)}
         events.append({'when': when, 'peer': peer, 'act': rng.choice(ACTS), 'arg': rng.randint(0, 9)})
+    attempts = rng.choice([0, 0, 0, 1, 3])
+    if nn >= 2 and rng.chance(0.12):
+        # a neighbor whose attempts are refused sits in its back-off; the peer connects in, and before the peer task wakes up
+        # a reload removes the neighbor (or stops it while its own connect is still pending): whatever it owns must be closed
+        i = rng.randint(0, nn - 1)
+        nbrs[i].update({'spk_accept': rng.choice(['refuse', 'slow']), 'passive': False, 'range': False, 'peer_ip': PEERS[i]})
+        d = rng.choice([0.05, 0.3, 1.0])
+        st_ = rng.choice(['IDLE', 'IDLE', 'CONNECT'])
+        n_ = rng.randint(1, 3)
+        events = events[:6] + [
+            {'when': {'state': st_, 'nth': n_, 'delay': d}, 'peer': i, 'act': 'connect-in', 'arg': 0},
+            {'when': {'state': st_, 'nth': n_, 'delay': d + rng.choice([0.001, 0.02, 0.1])}, 'peer': i, 'act': 'reload-removed', 'arg': 0},
+            {'when': {'state': st_, 'nth': n_, 'delay': d + 3.0}, 'peer': i, 'act': 'accept', 'arg': 0},
+        ]
+        attempts = 0
     return {
         'micro_seed': rng.randint(1, 1 << 48), 'knobs': knobs(rng), 'neighbors': nbrs, 'events': events,
-        'attempts': rng.choice([0, 0, 0, 1, 3]), 'openwait': rng.choice([3, 10]), 'horizon': 60.0,
+        'attempts': attempts, 'openwait': rng.choice([3, 10]), 'horizon': 60.0,
     }  # fmt: skip
 
 
@@ -275,9 +290,22 @@ def execute(plan: dict) -> dict:
 
     dead: dict = {}
 
+    stopped_since: dict = {}
+
     def orphan_watch() -> None:
         owned = set()
+        configured = {str(n.session.peer_address) for n in w.reactor.configuration.neighbors.values()}
         for name_, p in w.reactor._peers.items():
+            # a peer whose neighbor a reload took out of the configuration was stopped (RFC 4271 ManualStop). exabgp stops lazily: a
+            # handshake already under way runs to its end (bounded by openwait / hold time, not judged) and the session is then
+            # ceased at once - what it may not do is hold an ESTABLISHED session: 8 s of it is a session that was never stopped
+            addr = str(p.neighbor.session.peer_address)
+            if addr not in configured and not p.neighbor.ephemeral and p.fsm.name() == 'ESTABLISHED':
+                first = stopped_since.setdefault(name_, w.loop.mono)
+                if w.loop.mono - first > 8.0 and not violations:
+                    violations.append(viol('C05/removed-neighbor-still-running', f'neighbor {addr} was removed by a reload and its peer has been {p.fsm.name()} for {w.loop.mono - first:.1f}s since', state=p.fsm.name()))
+            else:
+                stopped_since.pop(name_, None)
             pr = p.proto
             if pr is not None and pr.connection is not None and pr.connection.io is not None:
                 owned.add(id(pr.connection.io))
